@@ -7,3 +7,7 @@ import OxyModel.Props.C14
 #print axioms C14.C14_conn_noninterference
 #print axioms C14.C14_evict_others_unchanged_rates
 #print axioms C14.C14_rate_noninterference_rates
+#print axioms C14.C14_evict_min_only_rel
+#print axioms C14.C14_heap_consistent
+#print axioms C14.C14_heap_pop_isMin
+#print axioms C14.C14_evicted_restarts
